@@ -251,3 +251,22 @@ REGISTRY["C09"] = {
         {"name": "TestC09Engine", "checks": {"quick": 120, "thorough": 4000}, "shards": {"quick": 8, "thorough": 16}, "gomaxprocs": [4, 2, 16, 1]},
     ],
 }
+
+REGISTRY["C13"] = {
+    "pkg": "props/c13",
+    "level": "exploration",
+    "level_text": ("rapid-drawn timer definitions (timeDate, timeDuration in S/M/H, timeCycle Rn/PT.., Rn/<start>/PT.., Rn/PT../<end>, Rn/<start>/<end>, n in "
+                   "{unbounded,0,1,2,3}) x histories of 1..6 steps, each a clock Set to a point from a grid around the due times (1 ns before, exactly at, "
+                   "1 ns after), a small advance, a jump of hours, a jump backwards, or a cancellation. After every step the timer goroutines are brought to "
+                   "quiescence (mock clock: no real time involved) and the number of values received, the closed state and the spacing of firings are compared "
+                   "with a 40-line reference model of the documented semantics. Process level: a timer catch event built with "
+                   "timer.EventDefinitionInstanceBuilder, optionally behind a task: the task after it is requested exactly once per firing it was listening for."),
+    "level_note": "Trusted: the reference timer model in props/c13, clock.Mock as the time source, the quiescence detector. Durations in seconds/minutes/hours only (the ISO library's month/year arithmetic is not the subject).",
+    "technique": "rapid property test over generated clock histories against a reference timer model (deterministic via mock clock + goroutine-snapshot quiescence)",
+    "rule": ("Distinct = (definition, history). Non-trivial = a step lands exactly on a due time, or jumps beyond >=2 due times of a cycle, or a cancellation comes between firings. Process level: >=2 clock steps."),
+    "assumptions": ["process level: timers are not already due when the instance is built (that firing races the token's arrival at the catch event)"],
+    "tests": [
+        {"name": "TestC13Unit", "checks": {"quick": 600, "thorough": 60000}, "shards": {"quick": 12, "thorough": 16}},
+        {"name": "TestC13Process", "checks": {"quick": 150, "thorough": 5000}, "shards": {"quick": 4, "thorough": 16}},
+    ],
+}
